@@ -92,3 +92,125 @@ def sqrt_mod(a, p):
 def in_subgroup(c, P):
     """n * P == infinity (what Public_key checks when the cofactor is not 1)"""
     return mul(c, c["n"], P) is None
+
+
+# ---- roots of a cubic over F_p (to find curve points with a prescribed small ordinate) ---------------------------------------
+
+def _ptrim(a):
+    while a and a[-1] == 0:
+        a.pop()
+    return a
+
+
+def _pmod(a, f, p):
+    """a mod f (coefficient lists, lowest degree first; f not zero)"""
+    a = _ptrim([v % p for v in a])
+    f = _ptrim([v % p for v in f])
+    inv = pow(f[-1], -1, p)
+    while len(a) >= len(f):
+        q = a[-1] * inv % p
+        off = len(a) - len(f)
+        for i, v in enumerate(f):
+            a[off + i] = (a[off + i] - q * v) % p
+        _ptrim(a)
+    return a
+
+
+def _pmulmod(a, b, f, p):
+    r = [0] * (len(a) + len(b) - 1) if a and b else []
+    for i, x in enumerate(a):
+        for j, y in enumerate(b):
+            r[i + j] = (r[i + j] + x * y) % p
+    return _pmod(r, f, p)
+
+
+def _ppowmod(base, e, f, p):
+    r, b = [1], _pmod(list(base), f, p)
+    while e:
+        if e & 1:
+            r = _pmulmod(r, b, f, p)
+        b = _pmulmod(b, b, f, p)
+        e >>= 1
+    return r
+
+
+def _pgcd(a, b, p):
+    a, b = _ptrim([v % p for v in a]), _ptrim([v % p for v in b])
+    while b:
+        a, b = b, _pmod(a, b, p)
+    if a:
+        inv = pow(a[-1], -1, p)
+        a = [v * inv % p for v in a]
+    return a
+
+
+def poly_roots(f, p, rng):
+    """all roots in F_p of the polynomial f (odd prime p): gcd with x^p - x, then random equal-degree splitting"""
+    f = _ptrim([v % p for v in f])
+    if len(f) <= 1:
+        return []
+    xp = _ppowmod([0, 1], p, f, p)
+    g = _pgcd(f, _ptrim([(v - (1 if i == 1 else 0)) % p for i, v in enumerate(xp + [0, 0])]), p)
+    out = []
+
+    def split(h):
+        if len(h) <= 1:
+            return
+        if len(h) == 2:
+            out.append(-h[0] * pow(h[1], -1, p) % p)
+            return
+        while True:
+            s = rng.randrange(p)
+            t = _ppowmod([s, 1], (p - 1) // 2, h, p)
+            t = _ptrim([(v - (1 if i == 0 else 0)) % p for i, v in enumerate(t + [0])])
+            d = _pgcd(h, t, p) if t else h
+            if 1 < len(d) < len(h):
+                split(d)
+                q = list(h)
+                # h / d by long division
+                quo = []
+                r = _ptrim([v % p for v in q])
+                inv = pow(d[-1], -1, p)
+                while len(r) >= len(d):
+                    c = r[-1] * inv % p
+                    off = len(r) - len(d)
+                    quo.append((off, c))
+                    for i, v in enumerate(d):
+                        r[off + i] = (r[off + i] - c * v) % p
+                    _ptrim(r)
+                qq = [0] * (max(o for o, _ in quo) + 1)
+                for o, c in quo:
+                    qq[o] = c
+                split(qq)
+                return
+    split(g)
+    return sorted(set(out))
+
+
+def points_with_ordinate(c, y, rng):
+    """all curve points (x, y) with the given ordinate"""
+    p = c["p"]
+    return [(x, y % p) for x in poly_roots([(c["b"] - y * y) % p, c["a"] % p, 0, 1], p, rng)]
+
+
+def points_with_small_coordinate(c, rng, count=3, limit=400):
+    """curve points with a small abscissa and curve points with a small ordinate (a representative `v + p` of the small
+    coordinate then still fits into the fixed-width encoding whenever p is not just below a power of 256)"""
+    p = c["p"]
+    small_x, small_y = [], []
+    x = 0
+    while len(small_x) < count and x < limit:
+        y = sqrt_mod(x ** 3 + c["a"] * x + c["b"], p)
+        if y:
+            small_x.append((x, y))
+        x += 1
+    y = 1
+    while len(small_y) < count and y < limit:
+        small_y += points_with_ordinate(c, y, rng)
+        y += 1
+    return small_x, small_y
+
+
+import random as _random
+assert all(on_curve(P256, P) for P in points_with_ordinate(P256, 1, _random.Random(1)))
+assert (0x09e78d4ef60d05f750f6636209092bc43cbdd6b47e11a9de20a9feb2a50bb96c, 1) in points_with_ordinate(P256, 1, _random.Random(2))
